@@ -3,6 +3,7 @@ dict(src=..., files=[(path, content)...] (optional), kind=..., sched=..., budget
 import random, itertools
 import genprog
 import pstreams2 as P2
+import pstreams3 as P3
 from genprog import bn, Gen, Scope, render
 
 T, F = 'সত্য', 'মিথ্যা'
@@ -203,6 +204,8 @@ def c02_cases(rng, tier):
         cases.append({'src': prog(['নাম শূ;', 'যদি মিথ্যা {', '} অথবা যদি %s {' % c, '    দেখাও "ভিতরে";', '}', 'দেখাও "পরে";']), 'alone': None, 'kind': 'nonbool'})
     for src in P2.repeated_chain_programs(rng, 120 if tier != 'thorough' else 800):
         cases.append({'src': src, 'alone': None, 'kind': 'repeated-chain'})
+    for c in P3.special_float_chain_programs() + P3.chain_junction_programs(rng, 80 if tier != 'thorough' else 600):
+        cases.append(dict(c, alone=None))
     return cases
 
 
@@ -280,6 +283,7 @@ def c03_cases(rng, tier):
         cases.append({'src': prog(['দেখাও "আগে";'] + s + ['দেখাও "পরে";']), 'kind': 'stray'})
     for src in P2.loop_depth_programs(rng, 60 if tier != 'thorough' else 400):
         cases.append({'src': src, 'kind': 'loop-depths', 'budget': 60000})
+    cases += P3.nested_loop_return_programs(rng, 60 if tier != 'thorough' else 400)
     return cases
 
 
@@ -351,6 +355,8 @@ def c05_cases(rng, tier):
     for src in P2.loop_depth_programs(rng, 60 if tier != 'thorough' else 400):
         cases.append({'src': src, 'kind': 'loop-depths', 'budget': 60000})
     cases += P2.callee_alloc_programs()
+    cases += P3.closing_return_programs(rng, 80 if tier != 'thorough' else 500)
+    cases += P3.nested_loop_return_programs(rng, 20 if tier != 'thorough' else 100)
     return cases
 
 
@@ -447,6 +453,7 @@ def c06_cases(rng, tier):
         cases.append({'src': src, 'kind': 'concat-fresh'})
     for _ in range(10):
         cases.append({'src': prog(['নাম ধরে = [[১], [২], [৩]];'] + P2.record_reuse_lines(rng) + P2.record_reuse_lines(rng)), 'kind': 'record-reuse'})
+    cases += P3.self_containing_programs(rng, 60 if tier != 'thorough' else 400)
     return cases
 
 
@@ -514,6 +521,7 @@ def c17_cases(rng, tier):
         cases.append({'src': prog(['নাম শূ;', 'ফাং ফ() {', '} ফেরত;', 'দেখাও _টাইপ(%s);' % e]), 'kind': 'type'})
     for bad in ['_টাইপ()', '_টাইপ(১, ২)', '_স্ট্রিং-স্প্লিট("a")', '_স্ট্রিং-স্প্লিট("a", ১)', '_স্ট্রিং-স্প্লিট(১, "a")', '_স্ট্রিং-জয়েন(["a"])', '_স্ট্রিং-জয়েন(["a", ১], ",")', '_স্ট্রিং-জয়েন("a", ",")', '_স্ট্রিং-জয়েন(["a"], ১)', '_স্ট্রিং-স্প্লিট("a", "b", "c")']:
         cases.append({'src': prog(['দেখাও "আগে";', 'দেখাও %s;' % bad, 'দেখাও "পরে";']), 'kind': 'badargs'})
+    cases += P3.text_oddities()
     return cases
 
 
@@ -541,6 +549,7 @@ def c18_cases(rng, tier):
             elif k < 0.9: lines.append(rng.choice(['দেখাও শূ;', 'দেখাও [১, শূ];', 'দেখাও ফ;', '_দেখাও @{"k" -> ফ,};', 'দেখাও [১, ১০ / ০];', '_দেখাও শূ;', 'দেখাও ০ / ০;']))
             else: lines.append('_লিস্ট-পুশ(ভাগা, %s);' % rng.choice(scal))
         cases.append({'src': prog(['নাম শূ;', 'ফাং ফ() {', '} ফেরত;'] + lines), 'kind': 'print'})
+    cases += P3.big_print_programs()
     return cases
 
 
@@ -552,6 +561,7 @@ FAULTS = [('type', '১ + "a"'), ('type', '"a" * ২'), ('type', '-"a"'), ('type
           # positions exactly at and just past the ends of a list (তা has two elements)
           ('builtin', '_লিস্ট-পপ(তা, ২)'), ('builtin', '_লিস্ট-পপ([১], ১)'), ('builtin', '_লিস্ট-পপ([], ০)'), ('builtin', '_লিস্ট-পপ(তা, _লিস্ট-লেন(তা))'),
           ('builtin', '_লিস্ট-পুশ(তা, ৩, ০)'), ('builtin', '_লিস্ট-পুশ(তা, -১, ০)'), ('builtin', '_লিস্ট-পুশ([], ১, ০)'), ('index', 'তা[২]'), ('index', 'তা[_লিস্ট-লেন(তা)]')]
+FAULTS += P3.EXTRA_FAULTS
 
 
 def c13_cases(rng, tier):
@@ -565,6 +575,8 @@ def c13_cases(rng, tier):
     # every fault at least once in the plainest position, whatever the seed
     combos = [(f, 'decl', 0, False) for f in FAULTS if f[0] != 'print'] + [(f, 'print', 1, False) for f in FAULTS] + combos
     for (fk, fe), shape, depth, inmod in combos:
+        # lines before the program proper: comments and strings that span lines, end a line with a backslash, hold a lone quote
+        head = rng.choice(P3.FAULT_PREFIX_COMMENTS) if rng.random() < 0.35 else []
         if shape == 'print': st = ['দেখাও %s;' % fe]
         elif shape == 'printn': st = ['_দেখাও %s;' % fe]
         elif shape == 'decl': st = ['নাম ন =', '    %s;' % fe]
@@ -590,11 +602,11 @@ def c13_cases(rng, tier):
             body = ['ফাং স্তর%s() {' % bn(d)] + ind(['দেখাও "স্তর%s";' % bn(d)] + body + ['দেখাও "ফিরে";']) + ['} ফেরত;', 'স্তর%s();' % bn(d)]
         tail = ['দেখাও "পরে";']
         if inmod:
-            mod = prog(pre + body + tail)
+            mod = prog(head + pre + body + tail)
             main = prog(['দেখাও "মূল";', '', 'মডিউল ম = "mods/lib.pakhi";', 'দেখাও "মূল পরে";'])
             cases.append({'src': main, 'files': [('mods/lib.pakhi', mod)], 'kind': 'fault %s shape=%s depth=%d module' % (fk, shape, depth)})
         else:
-            cases.append({'src': prog(pre + body + tail), 'kind': 'fault %s shape=%s depth=%d' % (fk, shape, depth)})
+            cases.append({'src': prog(head + pre + body + tail), 'kind': 'fault %s shape=%s depth=%d' % (fk, shape, depth)})
     for nb in ['১', '"a"', 'তা', 'শূ', 'রে', '১ + ১', '_টাইপ(১)']:
         for depth in (0, 1, 2):
             for inmod in (False, True):
@@ -622,6 +634,7 @@ def c13_cases(rng, tier):
                     cases.append({'src': prog(['দেখাও "মূল";', 'মডিউল ম = "mods/lib.pakhi";', 'দেখাও "মূল পরে";']), 'files': [('mods/lib.pakhi', prog(body))], 'kind': 'fault stale-name module'})
                 else:
                     cases.append({'src': prog(body), 'kind': 'fault stale-name'})
+    cases += P3.negative_fraction_write_programs()
     # structural faults
     for s in [['}'], ['যদি মিথ্যা {'], ['অথবা {', '}'], ['ফাং ফ() {'], ['ফাং ফ()', 'দেখাও ১;'], ['লুপ {', '}'], ['ফেরত ১;'], ['ফাং', 'দেখাও ১;'], ['যদি মিথ্যা', 'দেখাও ১;']]:
         cases.append({'src': prog(['দেখাও "আগে";'] + s + ['দেখাও "পরে";']), 'kind': 'structural'})
@@ -680,13 +693,18 @@ def c07_programs(rng, tier):
         lines.append('নাম ধরা = [[৭, ৮], @{"k" -> [৯],}];')
         for _ in range(rng.randint(1, 4)):
             N = bn(rng.choice([3, 20, 40]))
-            lines.append(rng.choice(['দেখাও [[১, ২], বড়(%s)];' % N, 'দেখাও জোড়া([৩, ৪] + [৫], বড়(%s));' % N, 'দেখাও @{"a" -> [১], "b" -> বড়(%s),}["a"];' % N,
-                                     'নাম ফল%s = [[১, ২], বড়(%s), @{"x" -> [৩],}];' % (N, N), 'দেখাও জোড়া(@{"r" -> [১, ২],}, বড়(%s))[০]["r"];' % N, 'বড়(%s);' % N]))
+            lines.append(rng.choice(['দেখাও [[১, ২], বড়(%s)];' % N, 'দেখাও জোড়া([৩, ৪] + [৫], বড়(%s));' % N, 'নাম রক = @{"a" -> [১], "b" -> বড়(%s),}; দেখাও রক["a"];' % N,
+                                     'নাম ফল%s = [[১, ২], বড়(%s), @{"x" -> [৩],}];' % (N, N), 'নাম জফ = জোড়া(@{"r" -> [১, ২],}, বড়(%s)); দেখাও জফ[০]["r"];' % N, 'বড়(%s);' % N]))
             lines.append('দেখাও ধরা;')
         cases.append({'src': prog(lines), 'kind': 'gc-midexpr', 'budget': 20000})
     cases += P2.shadow_gc_programs(rng, 30 if tier != 'thorough' else 200)
     for _ in range(6):
         cases.append({'src': prog(['নাম ধরে = [[১], [২], [৩]];'] + P2.record_reuse_lines(rng) + P2.record_reuse_lines(rng)), 'kind': 'record-reuse'})
+    # long live chains: only sparse schedules (the model's collector is quadratic in the number of live containers)
+    for c in P3.deep_chain_programs():
+        if c['N'] == 1500: cases.append(dict(c, scheds=['e', 'n', '0' * 997 + '1']))
+    for c in P3.temporaries_programs(rng, 2):
+        cases.append(dict(c, scheds=['e', 'n', '0' * 211 + '1']))
     return cases
 
 
@@ -709,6 +727,7 @@ def c08_programs(rng, tier):
             name2 = pname + name
             src = prog(pre + ['নাম রাখা = [০];', 'নাম ই = ০;', 'লুপ {', '    যদি ই >= %s {' % bn(N), '        থামাও;', '    }', '    ই = ই + ১;', '    ' + body, '} আবার;', 'দেখাও ই;'])
             cases.append({'src': src, 'kind': 'alloc-loop %s' % name2, 'route': name2, 'N': N, 'budget': 40 * N + 30000})
+    cases += [c for c in P3.deep_chain_programs() if c['live'] > 1000]
     return cases
 
 
@@ -749,6 +768,7 @@ def c09_literal_cases(rng, tier):
         lines.append('দেখাও @{"k" -> %s,};' % xs[0])
         cases.append({'src': prog(lines), 'kind': 'sequence'})
     # subnormal and extreme values through text
+    cases += P3.number_text_cases(rng, tier)
     for e in ['১ / ১' + '০' * 310, '৪.৯ / ১' + '০' * 324, '২.২২৫০৭৩৮৫৮৫০৭২০১৪ / ১' + '০' * 308, '২.২২৫ / ১' + '০' * 308, '১.৭৯৭৬৯৩১৩৪৮৬২৩১৫৭ * ১' + '০' * 308]:
         cases.append({'src': prog(['নাম ক = %s;' % e, 'দেখাও _স্ট্রিং(ক);', 'দেখাও _সংখ্যা(_স্ট্রিং(ক)) == ক;', 'দেখাও ক;']), 'kind': 'arith'})
     return cases
@@ -793,6 +813,7 @@ def c15_cases(rng, tier):
                       'files': [('a.pakhi', prog(pre + ['মডিউল খ = "b.pakhi";', 'দেখাও "a";'])), ('b.pakhi', prog(pre + ['মডিউল গ = "a.pakhi";', 'দেখাও "b";']))], 'kind': 'inner-cycle'})
         cases.append({'src': prog(['মডিউল ক = "a.pakhi";', 'দেখাও "main";']),
                       'files': [('a.pakhi', prog(pre + ['মডিউল খ = "b.pakhi";', 'দেখাও "a";'])), ('b.pakhi', prog(pre + ['মডিউল গ = "c.pakhi";', 'দেখাও "b";'])), ('c.pakhi', prog(pre + ['মডিউল ঘ = "b.pakhi";', 'দেখাও "c";']))], 'kind': 'inner-cycle'})
+    cases += P3.import_graph_oddities() + P3.module_alias_programs()
     return cases
 
 
@@ -834,6 +855,7 @@ def c14_cases(rng, tier):
                            'দেখাও %s/ছায়া(৩, ৪);' % aliases[i], 'দেখাও %s/মান;' % aliases[i]]
         main_lines += ['দেখাও মান;', 'মান = ৫;', 'দেখাও %s/মান;' % aliases[0], 'দেখাও তালিকা;' if rng.random() < 0.3 else 'দেখাও "শেষ";', 'দেখাও _রিড-ফাইল(_ডাইরেক্টরি + "root.txt");']
         cases.append({'src': prog(main_lines), 'files': mods + datafiles, 'kind': 'modules', 'main': 'app/main.pakhi'})
+    cases += P3.module_alias_programs() + [c for c in P3.import_graph_oddities() if c['kind'] in ('chain-slash-alias', 'diamond-slash-alias', 'case-distinct-files')]
     return cases
 
 
@@ -882,6 +904,11 @@ def c19_cases(rng, tier):
          '    যদি দ্বিম[দ্বিই][০] != দ্বিই {', '        দ্বিভুল = দ্বিভুল + ১;', '    }', '    দ্বিই = দ্বিই + ১;', '} আবার;', 'দেখাও দ্বিভুল;', 'নাম দ্বির = @{"ক" -> ১,};', 'নাম দ্বির২ = @{"খ" -> ২,};', 'নাম দ্বির৩ = @{"গ" -> ৩,};', 'দেখাও দ্বির["ক"];', 'দেখাও দ্বির২["খ"];', 'দেখাও দ্বির৩["গ"];'],
     ]
     p1_pool.append(P2.record_churn_p1())
+    fl1, fl2 = P3.free_list_history_p1(), P3.free_list_p2()
+    for a_ in fl1:
+        for b_ in fl2: cases.append({'p1': prog(a_), 'p2': prog(b_), 'kind': 'compose free-list-history', 'budget': 60000})
+    for a_ in P3.free_list_forced_p1(rng, 40 if tier != 'thorough' else 300):
+        cases.append({'p1': prog(a_), 'p2': prog(fl2[0]), 'kind': 'compose free-list-forced', 'sched': rng.choice(['1', '1', '10', '110', '01', '1110'])})
     for c in P2.callee_alloc_programs()[:3]:
         p2_fixed.append([l.replace('ব্যস্ত', 'দ্বিব্যস্ত').replace('প্রথম', 'দ্বিপ্রথম').replace('বানাও', 'দ্বিবানাও') for l in c['src'].rstrip('\n').split('\n')])
     for a in p1_pool:
@@ -913,6 +940,7 @@ def c20_cases(rng, tier):
         def parent_ok(p): return '/' not in p or p.rsplit('/', 1)[0] in dirs
         for _ in range(rng.randint(2, 14)):
             allp = ['f.txt', 'g.txt', 'd/g.txt', 'd/e/h.txt', 'নথি.txt', 'd/নথি২.txt', 'f.tmp', 'd/g.tmp', 'f', 'd/g.txt.bak']
+            if rng.random() < 0.5: allp = allp[:4] + P3.FS_EXTRA_PATHS
             k = rng.random()
             if k < 0.3:
                 cand = [p for p in allp if parent_ok(p) and p not in dirs] if valid else allp + ['d', 'missing/x.txt', 'f.txt/x']
